@@ -369,7 +369,31 @@ def freeze_establishes_invariant(report):
         except Exception as e:  # noqa
             seen['error'] = repr(e)[:200]
         evicted = (not seen.get('gxx_is_input', False)) or (not seen.get('extra_present', False)) or 'error' in seen
-        if evicted:
+        inputs_frozen_first = all(captured.get('importance_at_first_request', {}).get(k, 1) == 0 for k in ('it', 'gxx', 'extra_input'))
+        custom_unfrozen = r3 is not None and r3.var_importance.get('cust', 1) != 0
+        if not evicted and inputs_frozen_first and custom_unfrozen:
+            # the inputs are frozen but the custom variable is not: confirm through the real driver with a custom variable that
+            # shadows a built-in ('press'), built-ins that read it requested afterwards, and a clean-up every 2 calculations
+            from aurel import time as atime2
+            rho_in = 1.0 + 0.1 * np.arange(216.0).reshape(6, 6, 6) / 216
+            d2 = {'it': [0], 'rho': [rho_in.copy()]}
+            try:
+                import io as _io
+                import contextlib as _cl
+                with _cl.redirect_stdout(_io.StringIO()), np.errstate(all='ignore'):
+                    res = atime2.over_time(d2, fd, vars=[{'press': lambda r: r['rho'] / 3.0}, 'Hamiltonian', 'press_n'], estimates=[],
+                                           verbose=False, clear_cache_every_nbr_calc=2)
+                dev = float(np.max(np.abs(np.asarray(res['press_n'][0]) - rho_in / 3.0)))
+            except Exception as e:  # noqa
+                dev, seen['error'] = float('inf'), repr(e)[:200]
+            if dev > 1e-9:
+                report.violation('freeze-invariant:custom variable of the time-series driver',
+                                 'process_single_timestep does not freeze the custom variable it stored: with a clean-up every 2 calculations a '
+                                 f"custom 'press' is evicted and the built-in press_n is computed from the default instead (deviation {dev:.3g})",
+                                 report.write_replay('freeze-invariant-custom', dict(deviation=dev, importance_of_custom=float(r3.var_importance.get('cust', 1)))))
+            else:
+                report.harness_errors.append('process_single_timestep: custom variable not frozen, but the real clean-up run shows no eviction')
+        elif evicted:
             report.violation('freeze-invariant:process_single_timestep',
                              'process_single_timestep lets a custom variable run before its inputs are frozen; with a clean-up every 2 '
                              f'calculations the custom function no longer sees its inputs: {seen}',
